@@ -195,7 +195,7 @@ theorem framesOf_framed (m : Mode) (hm : m.framed = true) (pre : List Nat) (f a 
   simp [framesOf, hm, fromEnd, List.getD_eq_getElem?_getD]
 
 theorem prod_maskShapeNoCoil_static (pre : List Nat) (a b c : Nat) :
-    prod (maskShapeNoCoil .static (pre ++ [a, b, c])) = 1 * a * b := by
+    prod (maskShapeNoCoil .static (pre ++ [a, b, c])) = a * b := by
   rw [maskShapeNoCoil_static, prod_append, prod_replicate_one]
   simp [prod_cons, prod_nil]
 
